@@ -10,7 +10,8 @@ Record ccase := CC {
   i_trace : list (Z * Z);            (* implementation: (tid, site) per step *)
   i_results : list (list (Z * Z));   (* per thread, oldest first, (tag code, value) *)
   i_top : Z; i_bot : Z;
-  i_rem : list Z;                    (* implementation: slots[top_ .. bottom_) read after the run *)
+  i_rem : list Z;                    (* implementation: slots[top_ .. bottom_) read after the run (-777 = torn payload) *)
+  i_stray : Z;                       (* payload copies from/to a slot not immediately preceded by the matching hook point *)
   i_status : Z }.                    (* 0 done 1 deadlock 2 budget *)
 
 Definition count (x : Z) (l : list Z) : Z := fold_right (fun y a => if y =? x then a + 1 else a) 0 l.
@@ -24,8 +25,11 @@ Definition i_returned (c : ccase) : list Z := with_tag 3 (concat (i_results c)) 
 (* the property on the implementation's own output:
    - every returned element was pushed, and not more often than it was pushed (nothing delivered twice, nothing invented);
    - when the run completed (quiescent): pushed = returned + remaining, as multisets;
-   - bottom_ - top_ never exceeds the capacity at the end *)
+   - bottom_ - top_ never exceeds the capacity at the end;
+   - every payload access of a slot was its own scheduled step (no stray access): otherwise the schedules explored here do not
+     cover the interleavings of the code, e.g. a copy out of the slot AFTER the CAS that releases it *)
 Definition prop_ok (c : ccase) : bool :=
+  (i_stray c =? 0) &&
   sub_multiset (i_returned c) (i_pushed c) &&
   (if i_status c =? 0 then eq_multiset (i_pushed c) (i_returned c ++ i_rem c) else true) &&
   (i_bot c - i_top c <=? c_cap c).
